@@ -133,7 +133,7 @@ def runRec (c : RecCfg Nat Nat Nat) (nfiles : Nat) : List (REvent Nat) → Files
 
 /-! concurrency -/
 
-inductive MAct | one (a : Act) | finish (p : Nat) | writeTo (p k : Nat)
+inductive MAct | one (a : Act) | finish (p : Nat) | writeTo (p k : Nat) | jumpTo (p k : Nat)
 
 def parseMAct (s : String) : Option MAct :=
   match words s with
@@ -141,6 +141,7 @@ def parseMAct (s : String) : Option MAct :=
   | ["k", p] => do some (.one (.kill (← p.toNat?)))
   | ["S", p] => do some (.finish (← p.toNat?))
   | ["W", p, k] => do some (.writeTo (← p.toNat?) (← k.toNat?))
+  | ["J", p, k] => do some (.jumpTo (← p.toNat?) (← k.toNat?))
   | _ => none
 
 def busy : PState Nat Nat Nat → Bool
@@ -161,6 +162,23 @@ def writeToP (c : Cfg Nat Nat Nat) (lock : Bool) (p k : Nat) : Nat → CState Na
     | .writing j => if j < k then writeToP c lock p k n (act c lock s (.step p)) else s
     | _ => s
 
+/-- shortcut for large entries: the state reached by `writeToP` (`computing` → `writing 0` → ... → `writing k`) written
+down directly; equal to the stepped state because `writeByte k d[k] (overlay k d b) = overlay (k+1) d b`
+(`writeByte_overlay`, used in the proof of `lock_serialisable`) and `overlay k d (overlay j d b) = overlay k d b` for `j ≤ k` -/
+def jumpToP (c : Cfg Nat Nat Nat) (lock : Bool) (p k : Nat) (s : CState Nat Nat Nat) : CState Nat Nat Nat :=
+  let s := match s.procs p with
+    | .computing => act c lock s (.step p)
+    | _ => s
+  match s.procs p, c.f with
+  | .writing j, .ret v l =>
+    let d := entryBytes c p v l
+    if j < k && k ≤ d.length then { s with file := overlay k d s.file, procs := setProc s.procs p (.writing k) } else s
+  | _, _ => s
+
+def fileHash (b : Bytes) : Nat := b.foldl (fun h x => (h * 257 + x + 1) % 1000000007) 0
+
+def showFile (b : Bytes) : String := if b.length ≤ 3000 then showNats b else s!"#{b.length}:{fileHash b}"
+
 def showP : PState Nat Nat Nat → String
   | .idle => "idle" | .locked => "locked" | .computing => "computing" | .writing k => s!"writing {k}"
   | .done o => s!"done {showOutcome o}" | .dead => "dead"
@@ -169,7 +187,7 @@ def showC (np : Nat) (s : CState Nat Nat Nat) : String :=
   let ps := ",".intercalate ((List.range np).map fun p => showP (s.procs p))
   let holder := match s.holder with | some p => toString p | none => "-"
   let hist := ",".intercalate (s.hist.map fun (p, ev) => s!"{p}:" ++ (match ev.fault with | .none => "c" | .kill k => s!"k{k}" | .intr e => s!"i{e}"))
-  s!"procs={ps}&holder={holder}&execs={s.execs}&file={showNats s.file}&hist={hist}"
+  s!"procs={ps}&holder={holder}&execs={s.execs}&file={showFile s.file}&hist={hist}"
 
 def runC (c : Cfg Nat Nat Nat) (lock : Bool) (np : Nat) : List MAct → CState Nat Nat Nat → List String
   | [], _ => []
@@ -178,6 +196,7 @@ def runC (c : Cfg Nat Nat Nat) (lock : Bool) (np : Nat) : List MAct → CState N
       | .one a => act c lock s a
       | .finish p => finishP c lock p 1000000 s
       | .writeTo p k => writeToP c lock p k 1000000 s
+      | .jumpTo p k => jumpToP c lock p k s
     showC np s' :: runC c lock np t s'
 
 def handle (line : String) : String :=
